@@ -51,6 +51,9 @@ def run(ctx):
     ctx.guarded("R05.3", "set_body", lambda: set_body(ctx))
     ctx.guarded("R05.4", "new", lambda: new_rule(ctx))
     ctx.guarded("R05.5", "StatusCode", lambda: status_table(ctx, "R05.5"))
+    ctx.rule("R05.6", "on a connection the serialized bytes reach the stream unmodified under short/interrupted writes (C06's writer bookkeeping R06.1-R06.5)")
+    from .c06 import paths as writer_paths
+    ctx.guarded("R05.6", "writer", lambda: writer_paths(ctx, "R05.6"))
 
 
 def leaves_of(ctx, name):
